@@ -25,20 +25,27 @@ func (k msgServer) ExecuteOrders(goCtx context.Context, msg *types.MsgExecuteOrd
 		var err error
 		var res *ammtypes.MsgSwapByDenomResponse
 
+		// an execution first releases the escrow to the owner and then trades; its error is only
+		// logged, so it runs on a cache context: a failed attempt must leave escrow and order as they were
+		cacheCtx, write := ctx.CacheContext()
+
 		// dispatch based on the order type
 		switch spotOrder.OrderType {
 		case types.SpotOrderType_STOPLOSS:
 			// execute the stop loss order
-			res, err = k.ExecuteStopLossOrder(ctx, spotOrder)
+			res, err = k.ExecuteStopLossOrder(cacheCtx, spotOrder)
 		case types.SpotOrderType_LIMITSELL:
 			// execute the limit sell order
-			res, err = k.ExecuteLimitSellOrder(ctx, spotOrder)
+			res, err = k.ExecuteLimitSellOrder(cacheCtx, spotOrder)
 		case types.SpotOrderType_LIMITBUY:
 			// execute the limit buy order
-			res, err = k.ExecuteLimitBuyOrder(ctx, spotOrder)
+			res, err = k.ExecuteLimitBuyOrder(cacheCtx, spotOrder)
 		case types.SpotOrderType_MARKETBUY:
 			// execute the market buy order
-			res, err = k.ExecuteMarketBuyOrder(ctx, spotOrder)
+			res, err = k.ExecuteMarketBuyOrder(cacheCtx, spotOrder)
+		}
+		if err == nil {
+			write()
 		}
 
 		// log the error if any
@@ -64,8 +71,12 @@ func (k msgServer) ExecuteOrders(goCtx context.Context, msg *types.MsgExecuteOrd
 		// dispatch based on the order type
 		switch perpetualOrder.PerpetualOrderType {
 		case types.PerpetualOrderType_LIMITOPEN:
-			// execute the limit open order
-			err = k.ExecuteLimitOpenOrder(ctx, perpetualOrder)
+			// execute the limit open order (on a cache context, see the spot orders above)
+			cacheCtx, write := ctx.CacheContext()
+			err = k.ExecuteLimitOpenOrder(cacheCtx, perpetualOrder)
+			if err == nil {
+				write()
+			}
 			// Disable for v1
 			// case types.PerpetualOrderType_LIMITCLOSE:
 			// 	// execute the limit close order
